@@ -9,5 +9,7 @@ cd /repo && git diff --quiet || { echo "/repo is dirty; refusing"; exit 2; }
 git -C /repo apply "$D/patch.diff" || { echo "patch does not apply"; exit 2; }
 cd /verif && ./check "$PROP" --tier "$TIER" > "/tmp/seeded-$ID.out" 2> "/tmp/seeded-$ID.err"; RC=$?
 git -C /repo checkout -- . 
+# the evidence file now describes the patched tree: restore the committed one (from the unchanged tree)
+git -C /verif checkout -- "evidence/$PROP.json" 2>/dev/null
 echo "seeded=$ID property=$PROP tier=$TIER rc=$RC"; grep -h "VIOLATION\|KNOWN-FINDING" "/tmp/seeded-$ID.out" | head -5
 exit $RC
